@@ -453,11 +453,13 @@ func (ex *Explorer) runPath(w *Worker, prefix []int) (in *Interp, res *PathResul
 		}
 	}()
 	// package initialisation (concrete)
+	in.initPhase = true
 	for _, p := range ex.eng.initOrder {
 		if f := p.Func("init"); f != nil {
-			in.callSSA(nil, f, nil, nil, 0)
+			in.runInit(p, f)
 		}
 	}
+	in.initPhase = false
 	in.callSSA(nil, ex.harness, nil, nil, 0)
 	res.Kind = "done"
 	if in.asserts > 0 {
@@ -584,4 +586,28 @@ func addAPITemplate(ov map[string][]byte, repo, pkgRel, pkgName, name string, sy
 	}
 	ov[filepath.Join(repo, pkgRel, "zz_verif_api_"+name+".go")] = []byte(strings.Replace(string(data), "package PKG", "package "+pkgName, 1))
 	return nil
+}
+
+// runInit runs one package initializer; a library-dependent failure inside it
+// is tolerated (noted) because set-up of flags, templates and metrics is not
+// what harnesses depend on.  Package-level variables initialised after the
+// failing statement keep their zero value.
+func (in *Interp) runInit(p *ssa.Package, f *ssa.Function) {
+	defer func() {
+		if r := recover(); r != nil {
+			switch x := r.(type) {
+			case *goPanic:
+				in.note("init-aborted:" + p.Pkg.Path() + ": " + x.msg + " at " + x.site)
+			case *pathEnd:
+				if x.kind == "unsupported" || x.kind == "exit" {
+					in.note("init-aborted:" + p.Pkg.Path() + ": " + x.msg)
+					return
+				}
+				panic(r)
+			default:
+				panic(r)
+			}
+		}
+	}()
+	in.callSSA(nil, f, nil, nil, 0)
 }
